@@ -40,6 +40,8 @@ void *
 __wrap_malloc (size_t n)
 {
     void *p = __real_malloc (n);
+    /* the content of a fresh block is indeterminate: make that visible (a pointer field read before it is set is 0xa5a5...) */
+    if (p) memset (p, 0xa5, n);
     if (wrap_track && p) add (p);
     return p;
 }
@@ -47,7 +49,8 @@ __wrap_malloc (size_t n)
 void
 __wrap_free (void *p)
 {
-    if (wrap_track && p && !del (p)) wrap_bad_free++;
+    /* a pointer the library never obtained from malloc (or already released) is counted and not passed on */
+    if (wrap_track && p && !del (p)) { wrap_bad_free++; return; }
     __real_free (p);
 }
 
